@@ -386,7 +386,7 @@ func c09(c *Ctx) {
 		raceOn = "on"
 	}
 	res := make([]c09res, len(progs))
-	limit := 20 * time.Second
+	limit := 10 * time.Second
 	retried := map[int]bool{}
 	for i := 0; i < len(progs); {
 		n := c09runChild(exe, c.Seed, c.Thorough, i, res, limit)
@@ -395,7 +395,7 @@ func c09(c *Ctx) {
 			retried[n-1] = true
 			res[n-1] = c09res{}
 			one := make([]c09res, len(progs))
-			c09runOne(exe, c.Seed, c.Thorough, n-1, one, 90*time.Second)
+			c09runOne(exe, c.Seed, c.Thorough, n-1, one, 30*time.Second)
 			res[n-1] = one[n-1]
 		}
 		if n <= i {
